@@ -94,8 +94,6 @@ def cases(draw, backend):
         form = "explicit1" if mismatch == "bare" else "explicit"
     if form in ("bare", "explicit1") and ncols != 1:
         form = "tuple" if form == "bare" else "explicit"
-    if level == "object" and form in ("bare", "explicit1") and isinstance(cols[0][1], TSeq):
-        form = "tuple"  # recorded finding (C01 per-object-bare-sequence-row)
     names = draw(st.lists(st.sampled_from(NAME_POOL), min_size=ncols, max_size=ncols, unique=True))
     tree = None
     expect_error = False
